@@ -178,4 +178,4 @@ TOPOLOGIES = {
                                  ('linked', 4, 3)],
 }
 QUICK = ['chain3', 'multi2+child', 'linked-chain', 'linked-multi', 'multi-one-parent', 'linked-linked',
-         'multi-two-parents', 'linked-chain+child']
+         'multi-two-parents', 'linked-chain+child', 'deep-linked']
